@@ -5,8 +5,10 @@ package main
 import (
 	"bytes"
 	"context"
+	"os"
 	"regexp"
 	"runtime"
+	"strconv"
 	"sync"
 	"time"
 )
@@ -102,6 +104,12 @@ func allBlocked() bool {
 // quiesce waits until the scenario can make no further progress: every goroutine is blocked,
 // the log did not grow, observed twice in a row. pendingTimers must return true while a timer
 // the scenario depends on may still fire. Returns false if no quiescence within maxWait.
+// quiescePatience is read once from VERIF_PATIENCE_MS (0 = off).
+var quiescePatience = func() time.Duration {
+	ms, _ := strconv.Atoi(os.Getenv("VERIF_PATIENCE_MS"))
+	return time.Duration(ms) * time.Millisecond
+}()
+
 func quiesce(h *hlog, maxWait time.Duration, pendingTimers func() bool) bool {
 	deadline := time.Now().Add(maxWait)
 	stable := 0
@@ -112,6 +120,16 @@ func quiesce(h *hlog, maxWait time.Duration, pendingTimers func() bool) bool {
 		if (pendingTimers == nil || !pendingTimers()) && allBlocked() && n == last {
 			stable++
 			if stable >= 2 {
+				if quiescePatience > 0 {
+					// patience mode (VERIF_PATIENCE_MS): a quiescent state must stay quiescent; a call that
+					// gives up or moves on by itself after some time (a hidden timer) shows up here
+					time.Sleep(quiescePatience)
+					if !(allBlocked() && h.len() == n) {
+						stable = 0
+						last = h.len()
+						continue
+					}
+				}
 				return true
 			}
 		} else {
